@@ -322,3 +322,85 @@ theorem run_clean (l : HList) (ops : List Op) (h : Clean l) : Clean (run l ops) 
   | cons op t ih => exact ih _ (step_clean l op h)
 
 end Wz.C05L
+
+/-! ### what `get_wsgi_headers` leaves under a header name -/
+namespace Wz.C05L
+open Wz Hdr Resp Wz.C16L Wz.C08L
+
+theorem set_getlist_ne (l : HList) (k k' v : Str) (hne : lower k' ≠ lower k) :
+    getlist (Hdr.set l k v).1 k' = getlist l k' := by
+  cases hv : hasNL v with
+  | true => simp [Hdr.set, strHeaderValue, hv]
+  | false =>
+    unfold getlist
+    rw [filter_other_key k k' hne]
+    have : (Hdr.set l k v).1.filter (fun p => !keyEq k p) = l.filter (fun p => !keyEq k p) := by
+      rcases set_cases l k v hv with ⟨r, hs, he⟩ | ⟨_, he⟩
+      · rw [he]; exact setLoop_filter_other k v l r hs
+      · rw [he]; simp [List.filter_append, keyEq_self]
+    rw [this, ← filter_other_key k k' hne]
+
+theorem filter_getlist (l : HList) (p : Pair → Bool) (k : Str) (h : ∀ q ∈ l, keyEq k q = true → p q = true) :
+    getlist (l.filter p) k = getlist l k := by
+  unfold getlist
+  rw [List.filter_filter]
+  congr 1
+  apply List.filter_congr
+  intro q hq
+  cases hk : keyEq k q with
+  | false => simp
+  | true => simp [h q hq hk]
+
+theorem delKey_getlist_ne (l : HList) (k k' : Str) (hne : lower k' ≠ lower k) :
+    getlist (delKey l k) k' = getlist l k' := by
+  apply filter_getlist
+  intro q _ hq
+  simp only [keyEq, beq_iff_eq] at hq
+  simp only [keyEq, Bool.not_eq_true', beq_eq_false_iff_ne]
+  intro e; exact hne (e ▸ hq.symm ▸ rfl)
+
+
+theorem removeEntity_getlist (l : HList) (k : Str)
+    (hk : Gen.Response.entityHeaders.contains (String.ofList (lower k)) = false ∨
+      lower k = "expires".toList ∨ lower k = "content-location".toList) :
+    getlist (removeEntityHeaders l) k = getlist l k := by
+  apply filter_getlist
+  intro q _ hq
+  simp only [keyEq, beq_iff_eq] at hq
+  simp only [isEntity, hq, Bool.or_eq_true, Bool.not_eq_true', beq_iff_eq]
+  rcases hk with h | h | h
+  · exact Or.inl (Or.inl h)
+  · exact Or.inl (Or.inr h)
+  · exact Or.inr h
+
+/-- what `get_wsgi_headers` leaves under a name that is not Content-Length: the entries after the
+Location / Content-Location stores, untouched by the stripping and the automatic length -/
+theorem wsgi_getlist_of (r : R) (lo co : Str) (k : Str)
+    (hcl : lower k ≠ lower "Content-Length".toList)
+    (hent : Gen.Response.entityHeaders.contains (String.ofList (lower k)) = false ∨
+      lower k = "expires".toList ∨ lower k = "content-location".toList) :
+    getlist (getWsgiHeaders r lo co) k =
+      getlist (if (getlist r.headers "content-location".toList).isEmpty then
+          (if (getlist r.headers "location".toList).isEmpty then r.headers else (Hdr.set r.headers "Location".toList lo).1)
+        else (Hdr.set (if (getlist r.headers "location".toList).isEmpty then r.headers
+          else (Hdr.set r.headers "Location".toList lo).1) "Content-Location".toList co).1) k := by
+  unfold getWsgiHeaders
+  simp only
+  generalize (if (getlist r.headers "content-location".toList).isEmpty then
+          (if (getlist r.headers "location".toList).isEmpty then r.headers else (Hdr.set r.headers "Location".toList lo).1)
+        else (Hdr.set (if (getlist r.headers "location".toList).isEmpty then r.headers
+          else (Hdr.set r.headers "Location".toList lo).1) "Content-Location".toList co).1) = hb
+  have h3 : getlist (if (decide (100 ≤ r.status) && decide (r.status < 200) || r.status == 204) = true then
+      delKey hb "Content-Length".toList else if (r.status == 304) = true then removeEntityHeaders hb else hb) k
+      = getlist hb k := by
+    split
+    · exact delKey_getlist_ne _ _ _ hcl
+    · split
+      · exact removeEntity_getlist hb k hent
+      · rfl
+  split
+  · rw [set_getlist_ne _ _ _ _ hcl, h3]
+  · exact h3
+
+
+end Wz.C05L
